@@ -60,7 +60,7 @@ def lattice_out(node, thin=None):
     return pts
 
 
-def in_lattice(lo, hi, tiny=1e-9):
+def in_lattice(lo, hi, tiny=1.001e-9):   # a hair above a billionth so that the f32 rounding stays inside the domain
     r = hi - lo
     vals = [lo, lo + tiny * r, lo + r / 4, lo + r / 2, lo + 3 * r / 4, hi - tiny * r, hi]
     if lo < 0 < hi:
